@@ -75,3 +75,51 @@ package pos
 //@   ensures [rejected] res.Code != 0 ==> auth.bal == old(auth.bal) && unchanged(pos)
 //@   ensures [moved] res.Code == 0 && msg.FromAddress != msg.ToAddress ==> amt(auth.bal[msg.FromAddress], pp_denom) == amt(old(auth.bal[msg.FromAddress]), pp_denom) - val(msg.Amount) && amt(auth.bal[msg.ToAddress], pp_denom) == amt(old(auth.bal[msg.ToAddress]), pp_denom) + val(msg.Amount)
 //@   ensures auth.supply == old(auth.supply)
+
+// ---------------------------------------------------------------- genesis.go
+//@ macro GIDXD(a) := pos.has[a] && pos.vals[a].Status == 2 && !pos.vals[a].Jailed
+//@ macro GPWR(a) := val(pos.vals[a].StakedTokens) / 1000000
+//@ macro GTOPN(a) := GIDXD(a) && pit.rank[a] < pp_max_validators
+//@ macro GOWN(u) := tmpk_owner(u.PubKey.Data)
+//@ macro GENTOP() := (forall a Bytes :: pos.prevhas[a] == GTOPN(a) && (GTOPN(a) ==> pos.prev[a] == GPWR(a)))
+//@ macro GENUPD() := (forall j int :: 0 <= j && j < len(res) ==> res[j].Power > 0 && GTOPN(GOWN(res[j])) && res[j].Power == GPWR(GOWN(res[j]))) && (forall i int, j int :: 0 <= i && i < j && j < len(res) ==> GOWN(res[i]) != GOWN(res[j])) && (forall a Bytes :: GTOPN(a) ==> (exists j int :: 0 <= j && j < len(res) && GOWN(res[j]) == a))
+// C04/C05/C06 (base case): after InitGenesis on an empty pos store with an empty staked pool, the pool holds exactly the
+// stake recorded for the genesis validators that are not unstaked (staked AND unstaking - F16), and the invariants valinv,
+// idxinv, queueinv, mininv hold (proved at exit; vacuous at entry on the empty store).
+//@ func InitGenesis(ctx sdk.Ctx, keeper keeper.Keeper, supplyKeeper types.AuthKeeper, data types.GenesisState) (res []abci.ValidatorUpdate)
+//@   props C04 C05 C06
+//@   uses bankinv valinv idxinv queueinv mininv
+//@   requires [empty-store] (forall a Bytes :: !pos.has[a] && !pos.prevhas[a]) && pos.stakesum == 0
+//@   requires [empty-pool] modreg("staked_tokens_pool") && (forall d Str :: amt(auth.bal[modaddr("staked_tokens_pool")], d) == 0)
+//@   requires [distinct] forall i int, j int :: 0 <= i && i < j && j < len(data.Validators) ==> data.Validators[i].Address != data.Validators[j].Address
+//@   requires [wellformed] forall i int :: 0 <= i && i < len(data.Validators) ==> (data.Validators[i].Status == 1 || data.Validators[i].Status == 2) && pk_addr(data.Validators[i].PublicKey) == data.Validators[i].Address && val(data.Validators[i].StakedTokens) >= pp_minstake && val(data.Validators[i].StakedTokens) >= 0
+//@   requires 0 <= pp_max_validators && pp_max_validators <= 9223372036854775807
+//@   modifies everything
+//@   loop 1 frame
+//@   loop 1 maintains bankinv valinv idxinv queueinv mininv
+//@   loop 1 invariant 0 - 1 <= #rangeindex && #rangeindex < len(data.Validators)
+//@   loop 1 invariant forall k int :: #rangeindex < k && k < len(data.Validators) ==> !pos.has[data.Validators[k].Address]
+//@   loop 1 invariant val(stakedTokens) == pos.stakesum
+//@   loop 1 invariant forall a Bytes :: !pos.prevhas[a]
+//@   loop 1 invariant auth.bal == old(auth.bal) && auth.has == old(auth.has)
+//@   loop 2 frame Ha_S_github_com_tendermint_tendermint_abci_types_ValidatorUpdate_v
+//@   loop 2 maintains bankinv valinv idxinv queueinv mininv
+//@   loop 2 invariant amt(auth.bal[modaddr("staked_tokens_pool")], pp_denom) == pos.stakesum
+//@   loop 3 frame
+//@   loop 3 maintains bankinv valinv idxinv queueinv mininv
+//@   loop 3 invariant amt(auth.bal[modaddr("staked_tokens_pool")], pp_denom) == pos.stakesum
+//@   loop 3 invariant !data.Exported ==> GENTOP()
+//@   loop 3 invariant !data.Exported ==> GENUPD()
+//@   loop 4 frame
+//@   loop 4 maintains bankinv valinv idxinv queueinv mininv
+//@   loop 4 invariant amt(auth.bal[modaddr("staked_tokens_pool")], pp_denom) == pos.stakesum
+//@   loop 4 invariant !data.Exported ==> GENTOP()
+//@   loop 4 invariant !data.Exported ==> GENUPD()
+//@   loop 5 frame
+//@   loop 5 maintains bankinv valinv idxinv queueinv mininv
+//@   loop 5 invariant amt(auth.bal[modaddr("staked_tokens_pool")], pp_denom) == pos.stakesum
+//@   loop 5 invariant !data.Exported ==> GENTOP()
+//@   loop 5 invariant !data.Exported ==> GENUPD()
+//@   ensures [backed] amt(auth.bal[modaddr("staked_tokens_pool")], pp_denom) == pos.stakesum
+//@   ensures [genesis-set] !data.Exported ==> GENTOP()
+//@   ensures [genesis-updates] !data.Exported ==> GENUPD()
